@@ -20,6 +20,34 @@ def warden_vector(corpus, version, direction, length, rng=None):
             'kind': f'len{length}', 'sig': [f'encrypted_data[-]:{length}'], 'feat': [], 'fmap': [], 'payloads': []}
 
 
+ELEM_WIDTH = {'u32': 4, 'Spell': 4, 'Guid': 8, 'u64': 8}
+
+
+def elastic_messages(corpus, version, direction):
+    """messages of the shape `u32 n; T[n] xs;` with a fixed-width T: the only ones whose size guard reaches beyond 64 KiB"""
+    env = corpus.env('world', version)
+    cdc = codec.Codec(env)
+    out = []
+    for c in sorted(env.messages(), key=lambda c: c.name):
+        ms = c.raw['members']
+        if len(ms) == 2 and all(m['m'] == 'def' for m in ms) and ms[0]['ty'] == 'u32' and ms[1].get('array') == ms[0]['name'] \
+                and ms[1]['ty'] in ELEM_WIDTH and direction in cdc.directions(c) and not codec.info(c).compressed:
+            out.append(c)
+    return out
+
+
+def elastic_vector(corpus, version, direction, c, n):
+    """canonical frame of elastic message c with n elements (element i = i * 2654435761 mod 2^width)"""
+    env = corpus.env('world', version)
+    cdc = codec.Codec(env)
+    w = ELEM_WIDTH[c.raw['members'][1]['ty']]
+    body = struct.pack('<I', n) + b''.join(((i * 2654435761) & ((1 << 8 * w) - 1)).to_bytes(w, 'little') for i in range(n))
+    frame = cdc.frame(c, body, direction)
+    return {'id': f'world:{version}.{direction[0].upper()}.{c.name}#n{n}', 'family': 'world', 'version': version, 'dir': direction,
+            'object': c.name, 'opcode': c.raw['opcode'], 'hex': frame.hex(), 'hdr': len(frame) - len(body), 'class': 'canonical',
+            'kind': f'n{n}', 'sig': [f'n:{n}'], 'feat': [], 'fmap': [], 'payloads': []}
+
+
 def max_body(version, direction):
     if direction == 'client':
         return 0xFFFF - 4
